@@ -1,7 +1,575 @@
-import ZoektModel.C31.Spec
+/-
+C31 — Index directory operations are mutually exclusive.
+
+Statement: two indexing operations for the same repository never run at the same time, a global operation on
+the index directory never runs while any other operation runs, and an operation skipped because its repository
+is busy is reported as skipped.  Quantifier: all interleavings of repository-scoped and global operations from
+any number of goroutines.
+
+The theorems are about `Reach` / `Exec` of C31/Model.lean: every state reachable by any interleaving of the atomic
+actions of `With` and `Global`, for any number of goroutines each performing any sequence of operations.
+-/
+import ZoektModel.C31.Lemmas
 namespace ZoektModel.C31
 
-theorem init_quiescent (n : Nat) : (init n).readers = 0 ∧ (init n).writer = false ∧ (init n).running = [] := by
-  simp [init]
+theorem step_cnt (s : State) (g : Nat) (old new : Pc) (hg : g < s.gs.length) (hp : pcAt s g = old) (p : Pc → Bool) :
+    cnt p (s.gs.set g new) + b2n (p old) = cnt p s.gs + b2n (p new) := by
+  have := cnt_set p s.gs g new hg
+  rw [show at_ s.gs g = old from hp] at this
+  exact this
+
+theorem b2n_le (b : Bool) : b2n b ≤ 1 := by cases b <;> simp
+
+/-- every hidden step preserves the invariant -/
+theorem inv_hidden {s s' : State} (g : Nat) (hi : Inv s) (h : hidden s g = some s') : Inv s' := by
+  unfold hidden at h
+  split at h
+  case isFalse => simp at h
+  case isTrue hg =>
+  obtain ⟨h1, h2, h3, h4⟩ := hi
+  cases hp : pcAt s g <;> simp only [hp] at h
+  case wCall n =>
+    split at h
+    · simp at h
+    · rename_i hw
+      injection h with h; subst h
+      have c := step_cnt s g _ (.wLocked n) hg hp
+      refine ⟨?_, ?_, ?_, ?_⟩
+      · have := c readHeld; simp [readHeld, setPc] at this ⊢; omega
+      · have := c writeHeld; simp [writeHeld, setPc] at this ⊢; omega
+      · intro hw'; simp [setPc] at hw'; exact absurd hw' hw
+      · intro m
+        have := c (busy m)
+        simp only [busy, b2n_false, Nat.add_zero] at this
+        show cnt (busy m) (s.gs.set g _) = b2n (s.running.contains m)
+        rw [this]; exact h4 m
+  case wLocked n =>
+    split at h
+    · rename_i hc
+      injection h with h; subst h
+      have c := step_cnt s g _ (.wSkip n) hg hp
+      refine ⟨?_, ?_, ?_, ?_⟩
+      · have := c readHeld; simp [readHeld, setPc] at this ⊢; omega
+      · have := c writeHeld; simp [writeHeld, setPc] at this ⊢; omega
+      · simpa [setPc] using h3
+      · intro m
+        have := c (busy m)
+        simp only [busy, b2n_false, Nat.add_zero] at this
+        show cnt (busy m) (s.gs.set g _) = b2n (s.running.contains m)
+        rw [this]; exact h4 m
+    · rename_i hc
+      injection h with h; subst h
+      have c := step_cnt s g _ (.wRun n) hg hp
+      refine ⟨?_, ?_, ?_, ?_⟩
+      · have := c readHeld; simp [readHeld, setPc] at this ⊢; omega
+      · have := c writeHeld; simp [writeHeld, setPc] at this ⊢; omega
+      · simpa [setPc] using h3
+      · intro m
+        have := c (busy m)
+        simp only [busy, b2n_false, Nat.add_zero] at this
+        show cnt (busy m) (s.gs.set g _) = b2n ((n :: s.running).contains m)
+        rw [this, h4 m, List.contains_cons]
+        by_cases hm : m = n
+        · subst hm
+          have h0 : s.running.contains m = false := by simpa using hc
+          rw [h0]; simp
+        · have e1 : (m == n) = false := by simpa using hm
+          have e2 : (n == m) = false := by simpa using (fun h => hm h.symm)
+          rw [e1, e2]; simp
+  case wSkip n =>
+    injection h with h; subst h
+    have c := step_cnt s g _ (.wRetF n) hg hp
+    have hpos := cnt_pos_of_mem readHeld s.gs g hg (by rw [show at_ s.gs g = .wSkip n from hp]; rfl)
+    refine ⟨?_, ?_, ?_, ?_⟩
+    · have := c readHeld; simp [readHeld, setPc] at this ⊢; omega
+    · have := c writeHeld; simp [writeHeld, setPc] at this ⊢; omega
+    · intro hw; simp [setPc] at hw; have := h3 hw; omega
+    · intro m
+      have := c (busy m)
+      simp only [busy, b2n_false, Nat.add_zero] at this
+      show cnt (busy m) (s.gs.set g _) = b2n (s.running.contains m)
+      rw [this]; exact h4 m
+  case wDone n =>
+    injection h with h; subst h
+    have c := step_cnt s g _ (.wCleared n) hg hp
+    refine ⟨?_, ?_, ?_, ?_⟩
+    · have := c readHeld; simp [readHeld, setPc] at this ⊢; omega
+    · have := c writeHeld; simp [writeHeld, setPc] at this ⊢; omega
+    · simpa [setPc] using h3
+    · intro m
+      have := c (busy m)
+      simp only [busy, b2n_false, Nat.add_zero] at this
+      show cnt (busy m) (s.gs.set g _) = b2n ((s.running.filter (· ≠ n)).contains m)
+      rw [contains_filter_ne]
+      have h4m := h4 m
+      generalize s.running.contains m = cm at h4m ⊢
+      by_cases hm : m = n
+      · subst hm
+        have hpos := cnt_pos_of_mem (busy m) s.gs g hg (by rw [show at_ s.gs g = .wDone m from hp]; simp [busy])
+        have hle := b2n_le cm
+        have e1 : (m == m) = true := by simp
+        rw [e1] at this
+        simp at this ⊢
+        omega
+      · have e2 : (n == m) = false := by simpa using (fun h => hm h.symm)
+        rw [e2] at this
+        simp [hm] at this ⊢
+        omega
+  case wCleared n =>
+    injection h with h; subst h
+    have c := step_cnt s g _ (.wRetT n) hg hp
+    have hpos := cnt_pos_of_mem readHeld s.gs g hg (by rw [show at_ s.gs g = .wCleared n from hp]; rfl)
+    refine ⟨?_, ?_, ?_, ?_⟩
+    · have := c readHeld; simp [readHeld, setPc] at this ⊢; omega
+    · have := c writeHeld; simp [writeHeld, setPc] at this ⊢; omega
+    · intro hw; simp [setPc] at hw; have := h3 hw; omega
+    · intro m
+      have := c (busy m)
+      simp only [busy, b2n_false, Nat.add_zero] at this
+      show cnt (busy m) (s.gs.set g _) = b2n (s.running.contains m)
+      rw [this]; exact h4 m
+  case gCall =>
+    split at h
+    · simp at h
+    · rename_i hw
+      injection h with h; subst h
+      have c := step_cnt s g _ .gLocked hg hp
+      simp at hw
+      refine ⟨?_, ?_, ?_, ?_⟩
+      · have := c readHeld; simp [readHeld, setPc] at this ⊢; omega
+      · have := c writeHeld; simp [writeHeld, setPc, hw.1] at this h2 ⊢; omega
+      · intro _; simpa [setPc] using hw.2
+      · intro m
+        have := c (busy m)
+        simp only [busy, b2n_false, Nat.add_zero] at this
+        show cnt (busy m) (s.gs.set g _) = b2n (s.running.contains m)
+        rw [this]; exact h4 m
+  case gDone =>
+    injection h with h; subst h
+    have c := step_cnt s g _ .gRet hg hp
+    have hpos := cnt_pos_of_mem writeHeld s.gs g hg (by rw [show at_ s.gs g = .gDone from hp]; rfl)
+    refine ⟨?_, ?_, ?_, ?_⟩
+    · have := c readHeld; simp [readHeld, setPc] at this ⊢; omega
+    · have := c writeHeld
+      have hle := b2n_le s.writer
+      simp [writeHeld, setPc] at this ⊢
+      omega
+    · intro hw; simp [setPc] at hw
+    · intro m
+      have := c (busy m)
+      simp only [busy, b2n_false, Nat.add_zero] at this
+      show cnt (busy m) (s.gs.set g _) = b2n (s.running.contains m)
+      rw [this]; exact h4 m
+  all_goals simp at h
+
+/-- changing one goroutine's program point to one with the same lock/running status preserves the invariant -/
+theorem inv_setPc {s : State} (g : Nat) (old new : Pc) (hi : Inv s) (hg : g < s.gs.length) (hp : pcAt s g = old)
+    (hr : readHeld old = readHeld new) (hw : writeHeld old = writeHeld new) (hb : ∀ m, busy m old = busy m new) :
+    Inv (setPc s g new) := by
+  obtain ⟨h1, h2, h3, h4⟩ := hi
+  have c := step_cnt s g old new hg hp
+  refine ⟨?_, ?_, ?_, ?_⟩
+  · have := c readHeld; rw [hr] at this; simp only [setPc]; omega
+  · have := c writeHeld; rw [hw] at this; simp only [setPc]; omega
+  · simpa [setPc] using h3
+  · intro m; have := c (busy m); rw [hb m] at this; have := h4 m; simp only [setPc]; omega
+
+/-- every logged step preserves the invariant -/
+theorem inv_visible {s s' : State} (e : Ev) (hi : Inv s) (h : visible s e = some s') : Inv s' := by
+  cases e with
+  | call g o =>
+    simp only [visible] at h
+    split at h
+    case isFalse => simp at h
+    case isTrue hg =>
+      cases hp : pcAt s g <;> cases o <;> simp only [hp] at h <;> try (simp at h)
+      all_goals (subst h; exact inv_setPc g _ _ hi hg hp rfl rfl (fun _ => rfl))
+  | begin g =>
+    simp only [visible] at h
+    split at h
+    case isFalse => simp at h
+    case isTrue hg =>
+      cases hp : pcAt s g <;> simp only [hp] at h <;> try (simp at h)
+      all_goals (subst h; exact inv_setPc g _ _ hi hg hp rfl rfl (fun _ => rfl))
+  | fin g =>
+    simp only [visible] at h
+    split at h
+    case isFalse => simp at h
+    case isTrue hg =>
+      cases hp : pcAt s g <;> simp only [hp] at h <;> try (simp at h)
+      all_goals (subst h; exact inv_setPc g _ _ hi hg hp rfl rfl (fun _ => rfl))
+  | ret g ran =>
+    simp only [visible] at h
+    split at h
+    case isFalse => simp at h
+    case isTrue hg =>
+      cases hp : pcAt s g <;> cases ran <;> simp only [hp] at h <;> try (simp at h)
+      all_goals (subst h; exact inv_setPc g _ _ hi hg hp rfl rfl (fun _ => rfl))
+
+/-- the invariant holds in every reachable state: any number of goroutines, any interleaving -/
+theorem inv_reach {s : State} (h : Reach s) : Inv s := by
+  induction h with
+  | init n => exact inv_init n
+  | tau g _ hs ih => exact inv_hidden g ih hs
+  | vis e _ hs ih => exact inv_visible e ih hs
+
+/-- **C31, clause 1**: two operations for the same repository never run `f` at the same time -/
+theorem no_same_repo_overlap {s : State} (h : Reach s) (i j n : Nat) (hi : i < s.gs.length) (hj : j < s.gs.length)
+    (pi : pcAt s i = .wIn n) (pj : pcAt s j = .wIn n) : i = j := by
+  have inv := inv_reach h
+  have hle : cnt (busy n) s.gs ≤ 1 := by rw [inv.running n]; exact b2n_le _
+  exact cnt_le_one_unique (busy n) s.gs hle i j hi hj
+    (by rw [show at_ s.gs i = .wIn n from pi]; simp [busy]) (by rw [show at_ s.gs j = .wIn n from pj]; simp [busy])
+
+/-- **C31, clause 2**: while a global operation runs `f`, no other operation of any kind runs `f` -/
+theorem global_exclusive {s : State} (h : Reach s) (i j : Nat) (hi : i < s.gs.length) (hj : j < s.gs.length)
+    (pi : pcAt s i = .gIn) (hij : i ≠ j) : pcAt s j ≠ .gIn ∧ ∀ n, pcAt s j ≠ .wIn n := by
+  have inv := inv_reach h
+  have hpos := cnt_pos_of_mem writeHeld s.gs i hi (by rw [show at_ s.gs i = .gIn from pi]; rfl)
+  have hw : s.writer = true := by
+    cases hw : s.writer
+    · have := inv.writer; rw [hw] at this; simp at this; omega
+    · rfl
+  refine ⟨?_, ?_⟩
+  · intro pj
+    have hle : cnt writeHeld s.gs ≤ 1 := by rw [inv.writer]; exact b2n_le _
+    exact hij (cnt_le_one_unique writeHeld s.gs hle i j hi hj
+      (by rw [show at_ s.gs i = .gIn from pi]; rfl) (by rw [show at_ s.gs j = .gIn from pj]; rfl))
+  · intro n pj
+    have := cnt_pos_of_mem readHeld s.gs j hj (by rw [show at_ s.gs j = .wIn n from pj]; rfl)
+    have := inv.excl hw
+    have := inv.readers
+    omega
+
+/-- **C31, clause 3** (state level): the check-and-set of `With` decides to skip exactly when another goroutine
+    has the repository marked running (it is about to run, running, or has just run `f` for the same name) -/
+theorem skip_iff_busy {s s' : State} (h : Reach s) (g n : Nat) (hg : g < s.gs.length) (hp : pcAt s g = .wLocked n)
+    (hs : hidden s g = some s') :
+    (pcAt s' g = .wSkip n ∨ pcAt s' g = .wRun n) ∧
+    (pcAt s' g = .wSkip n ↔ ∃ j, j < s.gs.length ∧ j ≠ g ∧ busy n (pcAt s j) = true) := by
+  have inv := inv_reach h
+  have hnb : busy n (at_ s.gs g) = false := by rw [show at_ s.gs g = .wLocked n from hp]; rfl
+  simp only [hidden, hg, if_true, hp] at hs
+  by_cases hc : s.running.contains n = true
+  · rw [if_pos hc] at hs
+    injection hs with hs; subst hs
+    have hpc : pcAt (setPc s g (.wSkip n)) g = .wSkip n := by simp [pcAt, setPc, hg]
+    refine ⟨Or.inl hpc, fun _ => ?_, fun _ => hpc⟩
+    -- some goroutine is busy with n, and it is not g
+    have h1 : cnt (busy n) s.gs = 1 := by rw [inv.running n, hc]; rfl
+    by_cases hex : ∃ j, j < s.gs.length ∧ busy n (at_ s.gs j) = true
+    · obtain ⟨j, hj, hb⟩ := hex
+      refine ⟨j, hj, ?_, hb⟩
+      intro e; subst e; rw [hnb] at hb; cases hb
+    · exfalso
+      have : cnt (busy n) s.gs = 0 := by
+        have : ∀ l : List Pc, (∀ j, j < l.length → busy n (at_ l j) = false) → cnt (busy n) l = 0 := by
+          intro l
+          induction l with
+          | nil => intro _; rfl
+          | cons a r ih =>
+            intro hl
+            have h0 := hl 0 (by simp)
+            simp only [at_zero] at h0
+            have := ih (fun j hj => by have := hl (j + 1) (by simpa using hj); simpa using this)
+            simp [cnt, h0, this]
+        apply this
+        intro j hj
+        cases hb : busy n (at_ s.gs j)
+        · rfl
+        · exact absurd ⟨j, hj, hb⟩ hex
+      omega
+  · rw [if_neg hc] at hs
+    injection hs with hs; subst hs
+    have hpc : pcAt ({ setPc s g (.wRun n) with running := n :: s.running } : State) g = .wRun n := by
+      simp [pcAt, setPc, hg]
+    refine ⟨Or.inr hpc, ⟨fun h => ?_, fun ⟨j, hj, _, hb⟩ => ?_⟩⟩
+    · rw [hpc] at h; cases h
+    exfalso
+    have := cnt_pos_of_mem (busy n) s.gs j hj hb
+    have h0 : cnt (busy n) s.gs = 0 := by
+      rw [inv.running n]
+      have : s.running.contains n = false := by simpa using hc
+      rw [this]; rfl
+    omega
+
+/-- when every goroutine is idle again, nothing is left behind: no lock held, `running` empty -/
+theorem running_cleared {s : State} (h : Reach s) (hidle : ∀ j, j < s.gs.length → pcAt s j = .idle) :
+    s.readers = 0 ∧ s.writer = false ∧ ∀ n, s.running.contains n = false := by
+  have inv := inv_reach h
+  have zero : ∀ p : Pc → Bool, p .idle = false → cnt p s.gs = 0 := by
+    intro p hp
+    have : ∀ l : List Pc, (∀ j, j < l.length → at_ l j = .idle) → cnt p l = 0 := by
+      intro l
+      induction l with
+      | nil => intro _; rfl
+      | cons a r ih =>
+        intro hl
+        have h0 := hl 0 (by simp)
+        simp only [at_zero] at h0
+        have := ih (fun j hj => by have := hl (j + 1) (by simpa using hj); simpa using this)
+        simp [cnt, h0, hp, this]
+    exact this s.gs hidle
+  refine ⟨by rw [inv.readers, zero readHeld rfl], ?_, ?_⟩
+  · have := inv.writer; rw [zero writeHeld rfl] at this
+    cases hw : s.writer
+    · rfl
+    · rw [hw] at this; simp at this
+  · intro n
+    have := inv.running n; rw [zero (busy n) rfl] at this
+    cases hc : s.running.contains n
+    · rfl
+    · rw [hc] at this; simp at this
+
+/-! ### trace level: every logged trace of every execution satisfies the statement -/
+
+def phaseOf : Pc → Phase
+  | .idle => .idle
+  | .wCall n | .wLocked n | .wSkip n | .wRetF n | .wRun n => .called (.w n)
+  | .wIn n => .inside (.w n)
+  | .wDone n | .wCleared n | .wRetT n => .finished (.w n)
+  | .gCall | .gLocked => .called .g
+  | .gIn => .inside .g
+  | .gDone | .gRet => .finished .g
+
+def absPh (s : State) : List Phase := s.gs.map phaseOf
+
+theorem phAt_abs (s : State) (j : Nat) : phAt (absPh s) j = phaseOf (pcAt s j) := by
+  simp only [phAt, absPh, pcAt, List.getD_eq_getElem?_getD, List.getElem?_map]
+  cases s.gs[j]? <;> simp [phaseOf]
+
+theorem abs_setPc (s : State) (g : Nat) (pc : Pc) : absPh (setPc s g pc) = (absPh s).set g (phaseOf pc) := by
+  simp [absPh, setPc, List.map_set]
+
+theorem abs_setPc_same (s : State) (g : Nat) (pc : Pc) (hg : g < s.gs.length) (h : phaseOf pc = phaseOf (pcAt s g)) :
+    absPh (setPc s g pc) = absPh s := by
+  rw [abs_setPc, h, ← phAt_abs]
+  apply List.ext_getElem
+  · simp
+  · intro i h1 h2
+    by_cases hi : g = i
+    · subst hi; simp [phAt, List.getD_eq_getElem?_getD, List.getElem?_eq_getElem h2]
+    · simp [List.getElem_set, hi]
+
+/-- hidden steps do not change any goroutine's phase -/
+theorem abs_hidden {s s' : State} (g : Nat) (h : hidden s g = some s') : absPh s' = absPh s := by
+  unfold hidden at h
+  split at h
+  case isFalse => simp at h
+  case isTrue hg =>
+  cases hp : pcAt s g <;> simp only [hp] at h
+  case wCall n =>
+    split at h
+    · simp at h
+    · injection h with h; subst h; exact abs_setPc_same s g _ hg (by rw [hp]; rfl)
+  case wLocked n =>
+    split at h
+    · injection h with h; subst h; exact abs_setPc_same s g _ hg (by rw [hp]; rfl)
+    · injection h with h; subst h; exact abs_setPc_same s g _ hg (by rw [hp]; rfl)
+  case wSkip n => injection h with h; subst h; exact abs_setPc_same s g _ hg (by rw [hp]; rfl)
+  case wDone n => injection h with h; subst h; exact abs_setPc_same s g _ hg (by rw [hp]; rfl)
+  case wCleared n => injection h with h; subst h; exact abs_setPc_same s g _ hg (by rw [hp]; rfl)
+  case gCall =>
+    split at h
+    · simp at h
+    · injection h with h; subst h; exact abs_setPc_same s g _ hg (by rw [hp]; rfl)
+  case gDone => injection h with h; subst h; exact abs_setPc_same s g _ hg (by rw [hp]; rfl)
+  all_goals simp at h
+
+theorem abs_length (s : State) : (absPh s).length = s.gs.length := by simp [absPh]
+
+/-- in a reachable state, the goroutine that is about to run `f` may do so according to the statement -/
+theorem mayRun_of_reach {s : State} (h : Reach s) (g : Nat) (hg : g < s.gs.length) (o : Op)
+    (hp : (∃ n, o = .w n ∧ pcAt s g = .wRun n) ∨ (o = .g ∧ pcAt s g = .gLocked)) :
+    mayRun (absPh s) g o = true := by
+  have inv := inv_reach h
+  unfold mayRun
+  rw [List.all_eq_true]
+  intro j hj
+  rw [List.mem_range, abs_length] at hj
+  by_cases hjg : j = g
+  · simp [hjg]
+  · have hne : (j == g) = false := by simpa using hjg
+    rw [hne, Bool.false_or, phAt_abs]
+    rcases hp with ⟨n, rfl, hp⟩ | ⟨rfl, hp⟩
+    · -- g holds the read lock and has running[n]
+      have hr := cnt_pos_of_mem readHeld s.gs g hg (by rw [show at_ s.gs g = .wRun n from hp]; rfl)
+      cases hpj : pcAt s j <;> simp only [phaseOf]
+      case wIn m =>
+        show (m != n) = true
+        by_cases hmn : m = n
+        · subst hmn
+          have hle : cnt (busy m) s.gs ≤ 1 := by rw [inv.running m]; exact b2n_le _
+          exact absurd (cnt_le_one_unique (busy m) s.gs hle j g hj hg
+            (by rw [show at_ s.gs j = .wIn m from hpj]; simp [busy]) (by rw [show at_ s.gs g = .wRun m from hp]; simp [busy])) hjg
+        · simpa using hmn
+      case gIn =>
+        exfalso
+        have hw := cnt_pos_of_mem writeHeld s.gs j hj (by rw [show at_ s.gs j = .gIn from hpj]; rfl)
+        have : s.writer = true := by
+          cases hw' : s.writer
+          · have := inv.writer; rw [hw'] at this; simp at this; omega
+          · rfl
+        have := inv.excl this
+        have := inv.readers
+        omega
+    · -- g holds the write lock
+      have hw := cnt_pos_of_mem writeHeld s.gs g hg (by rw [show at_ s.gs g = .gLocked from hp]; rfl)
+      have hwr : s.writer = true := by
+        cases hw' : s.writer
+        · have := inv.writer; rw [hw'] at this; simp at this; omega
+        · rfl
+      cases hpj : pcAt s j <;> simp only [phaseOf]
+      case wIn m =>
+        exfalso
+        have := cnt_pos_of_mem readHeld s.gs j hj (by rw [show at_ s.gs j = .wIn m from hpj]; rfl)
+        have := inv.excl hwr
+        have := inv.readers
+        omega
+      case gIn =>
+        exfalso
+        have hle : cnt writeHeld s.gs ≤ 1 := by rw [inv.writer]; exact b2n_le _
+        exact hjg (cnt_le_one_unique writeHeld s.gs hle j g hj hg
+          (by rw [show at_ s.gs j = .gIn from hpj]; rfl) (by rw [show at_ s.gs g = .gLocked from hp]; rfl))
+
+/-- a logged step of the model is a step the statement allows -/
+theorem spec_visible {s s' : State} (e : Ev) (hr : Reach s) (h : visible s e = some s') :
+    specStep (absPh s) e = some (absPh s') := by
+  cases e with
+  | call g o =>
+    simp only [visible] at h
+    split at h
+    case isFalse => simp at h
+    case isTrue hg =>
+      cases hp : pcAt s g <;> cases o <;> simp only [hp] at h <;> try (simp at h)
+      all_goals (subst h; simp [specStep, abs_length, hg, phAt_abs, hp, phaseOf, abs_setPc])
+  | begin g =>
+    simp only [visible] at h
+    split at h
+    case isFalse => simp at h
+    case isTrue hg =>
+      cases hp : pcAt s g <;> simp only [hp] at h <;> try (simp at h)
+      case wRun n =>
+        subst h
+        have := mayRun_of_reach hr g hg (.w n) (Or.inl ⟨n, rfl, hp⟩)
+        simp [specStep, phAt_abs, hp, phaseOf, abs_setPc, this]
+      case gLocked =>
+        subst h
+        have := mayRun_of_reach hr g hg .g (Or.inr ⟨rfl, hp⟩)
+        simp [specStep, phAt_abs, hp, phaseOf, abs_setPc, this]
+  | fin g =>
+    simp only [visible] at h
+    split at h
+    case isFalse => simp at h
+    case isTrue hg =>
+      cases hp : pcAt s g <;> simp only [hp] at h <;> try (simp at h)
+      all_goals (subst h; simp [specStep, phAt_abs, hp, phaseOf, abs_setPc])
+  | ret g ran =>
+    simp only [visible] at h
+    split at h
+    case isFalse => simp at h
+    case isTrue hg =>
+      cases hp : pcAt s g <;> cases ran <;> simp only [hp] at h <;> try (simp at h)
+      all_goals (subst h; simp [specStep, phAt_abs, hp, phaseOf, abs_setPc])
+
+theorem specRun_snoc (ph : List Phase) (tr : List Ev) (e : Ev) :
+    specRun ph (tr ++ [e]) = (specRun ph tr).bind (specStep · e) := by
+  induction tr generalizing ph with
+  | nil => simp [specRun]; cases specStep ph e <;> simp [specRun]
+  | cons a r ih =>
+    simp only [List.cons_append, specRun]
+    cases specStep ph a with
+    | none => simp
+    | some ph' => exact ih ph'
+
+theorem exec_spec {s0 s : State} {tr : List Ev} (h : Exec s0 tr s) (h0 : Reach s0) :
+    Reach s ∧ specRun (absPh s0) tr = some (absPh s) := by
+  induction h with
+  | nil => exact ⟨h0, rfl⟩
+  | tau g _ hs ih => exact ⟨Reach.tau g ih.1 hs, by rw [ih.2, abs_hidden g hs]⟩
+  | vis e _ hs ih =>
+    refine ⟨Reach.vis e ih.1 hs, ?_⟩
+    rw [specRun_snoc, ih.2]
+    exact spec_visible e ih.1 hs
+
+/-- **C31, the statement on traces**: whatever the number of goroutines, the operations they perform and the
+    interleaving, the logged trace never shows two `f` for one repository at once, never shows anything running
+    beside a global `f`, and every `With` reports `true` exactly when its `f` ran -/
+theorem all_traces_ok (n : Nat) (tr : List Ev) (s : State) (h : Exec (init n) tr s) : traceOK n tr = true := by
+  have := (exec_spec h (Reach.init n)).2
+  have e : absPh (init n) = List.replicate n .idle := by simp [absPh, init, phaseOf]
+  rw [e] at this
+  simp [traceOK, this]
+
+/-! non-vacuity: a concrete execution in which goroutine 1 is skipped while goroutine 0 runs `f` for the same
+    repository, and a global operation then runs alone -/
+def runSched (s : State) : List (Nat ⊕ Ev) → Option (State × List Ev)
+  | [] => some (s, [])
+  | .inl g :: r => match hidden s g with
+    | some s' => runSched s' r
+    | none => none
+  | .inr e :: r => match visible s e with
+    | some s' => (runSched s' r).map fun p => (p.1, e :: p.2)
+    | none => none
+
+theorem exec_trans_tau {s0 s s' : State} {tr : List Ev} (g : Nat) (h1 : hidden s0 g = some s) (h : Exec s tr s') :
+    Exec s0 tr s' := by
+  induction h with
+  | nil => exact Exec.tau g (Exec.nil _) h1
+  | tau g' _ hs ih => exact Exec.tau g' ih hs
+  | vis e _ hs ih => exact Exec.vis e ih hs
+
+theorem exec_trans_vis {s0 s s' : State} {tr : List Ev} (e : Ev) (h1 : visible s0 e = some s) (h : Exec s tr s') :
+    Exec s0 (e :: tr) s' := by
+  induction h with
+  | nil => exact Exec.vis (tr := []) e (Exec.nil _) h1
+  | tau g' _ hs ih => exact Exec.tau g' ih hs
+  | vis e' _ hs ih => exact Exec.vis (tr := e :: _) e' ih hs
+
+theorem runSched_exec (sched : List (Nat ⊕ Ev)) (s s' : State) (tr : List Ev) (h : runSched s sched = some (s', tr)) :
+    Exec s tr s' := by
+  induction sched generalizing s tr with
+  | nil => simp [runSched] at h; obtain ⟨rfl, rfl⟩ := h; exact Exec.nil _
+  | cons a r ih =>
+    cases a with
+    | inl g =>
+      simp only [runSched] at h
+      cases hh : hidden s g with
+      | none => simp [hh] at h
+      | some s1 => rw [hh] at h; simp only at h; exact exec_trans_tau g hh (ih s1 tr h)
+    | inr e =>
+      simp only [runSched] at h
+      cases hv : visible s e with
+      | none => simp [hv] at h
+      | some s1 =>
+        rw [hv] at h
+        simp only at h
+        cases hr : runSched s1 r with
+        | none => simp [hr] at h
+        | some p =>
+          rw [hr] at h
+          simp at h
+          obtain ⟨rfl, rfl⟩ := h
+          exact exec_trans_vis e hv (ih s1 p.2 (by rw [hr]))
+
+example : ∃ s, Exec (init 3) [.call 0 (.w 7), .begin 0, .call 1 (.w 7), .ret 1 false, .call 2 .g, .fin 0, .ret 0 true, .begin 2] s := by
+  have h : (runSched (init 3) [.inr (.call 0 (.w 7)), .inl 0, .inl 0, .inr (.begin 0), .inr (.call 1 (.w 7)), .inl 1, .inl 1, .inl 1,
+      .inr (.ret 1 false), .inr (.call 2 .g), .inr (.fin 0), .inl 0, .inl 0, .inr (.ret 0 true), .inl 2, .inr (.begin 2)]).isSome = true := by
+    decide
+  obtain ⟨p, hp⟩ := Option.isSome_iff_exists.mp h
+  have := runSched_exec _ _ p.1 p.2 hp
+  have e : p.2 = [.call 0 (.w 7), .begin 0, .call 1 (.w 7), .ret 1 false, .call 2 .g, .fin 0, .ret 0 true, .begin 2] := by
+    have : (runSched (init 3) [.inr (.call 0 (.w 7)), .inl 0, .inl 0, .inr (.begin 0), .inr (.call 1 (.w 7)), .inl 1, .inl 1, .inl 1,
+      .inr (.ret 1 false), .inr (.call 2 .g), .inr (.fin 0), .inl 0, .inl 0, .inr (.ret 0 true), .inl 2, .inr (.begin 2)]).map (·.2) =
+        some [.call 0 (.w 7), .begin 0, .call 1 (.w 7), .ret 1 false, .call 2 .g, .fin 0, .ret 0 true, .begin 2] := by decide
+    rw [hp] at this
+    simpa using this
+  exact ⟨p.1, e ▸ this⟩
+
+example : checkP 3 [.call 0 (.w 7), .begin 0, .call 1 (.w 7), .ret 1 false, .call 2 .g, .fin 0, .ret 0 true, .begin 2, .fin 2, .ret 2 true] = true := by
+  decide
+example : traceOK 2 [.call 0 (.w 7), .begin 0, .call 1 (.w 7), .begin 1] = false := by decide
+example : traceOK 2 [.call 0 (.w 7), .begin 0, .call 1 .g, .begin 1] = false := by decide
+example : skipsJustified [.call 0 (.w 7), .ret 0 false] = false := by decide
 
 end ZoektModel.C31
